@@ -8,7 +8,7 @@ from common import R, Rvec, Cx, fl, cfl
 
 from common import wiring_pre_build as pre_build  # noqa: E402,F401
 
-LEAN_MODULES = ["PyomaVerif.Props.C07", "PyomaVerif.Mutants.C07", "PyomaVerif.Props.WiringMpe"]
+LEAN_MODULES = ["PyomaVerif.Props.C07", "PyomaVerif.Props.C07Bell", "PyomaVerif.Mutants.C07", "PyomaVerif.Props.WiringMpe"]
 THEOREMS = [
     # call-site wiring of the class layer, regenerated from /repo on every run (translate_wiring.py)
     "PV.WiringMpe.C07_efdd_mpe_wiring",
@@ -24,6 +24,24 @@ THEOREMS = [
     "PV.C07.C07_extrema",
     "PV.C07.C07_interleave",
     "PV.C07.C07_timeaxis",
+    # depth extension: the bell on structured spectra (Props/C07Bell.lean, Lemmas/Bell.lean)
+    "PV.C07Bell.C07_mask_select",
+    "PV.C07Bell.C07_bell_select",
+    "PV.C07Bell.C07_dominant",
+    "PV.C07Bell.C07_bell_dominant",
+    "PV.C07Bell.C07_fsdd_value",
+    "PV.C07Bell.C07_fsdd_value_ref",
+    "PV.C07Bell.C07_bell_structured",
+    "PV.C07Bell.C07_bell_orthonormal",
+    "PV.C07Bell.C07_structured_singular",
+    "PV.C07Bell.C07_bell_structured_coded",
+    "PV.C07Bell.C07_bell_structured_coded_real",
+    "PV.C07Bell.C07_bell_scale_support",
+    "PV.C07Bell.C07_ifft_homogeneous",
+    "PV.C07Bell.C07_scale_ifft",
+    "PV.C07Bell.C07_mask_unitary",
+    "PV.C07Bell.C07_bell_unitary",
+    "PV.C07Bell.C07_fsdd_complex_shape_witness",
     "PV.Mutants.C07.sqrt_bell_not_proportional",
     "PV.Mutants.C07.no_factor_two_fails",
 ]
@@ -34,15 +52,25 @@ RULE = (
     "replaced by synthetic decays / noise so that the real post-processing runs on arbitrary sequences): peak indices exact, "
     "time axis, decrements, slope (closed form vs curve_fit, 1e-7), lam, xi, fn at 1e-12, IndexError branch. oracle (from the "
     "property text): analytic SDOF bells over the stated domain through EFDD_mpe and through EFDD/FSDD classes: fn 2.5 %, "
-    "xi 15 %, MAC 0.999, invariance under a positive factor 1e-9. distinct = (path, method, nxseg, channels, source kind)"
+    "xi 15 %, MAC 0.999, invariance under a positive factor 1e-9. distinct = (path, method, nxseg, channels, source kind). "
+    "depth extension (Props/C07Bell): correspondence also on exactly rank-structured spectra (orthonormal complex shapes, cm 1..2) "
+    "and of np.fft.ifft as called by EFDD_mpe vs Efdd.ifftRe (n = 5 nf, norm='ortho', sampled lags, 1e-12 of the largest sample); "
+    "oracle stream on the real SDOF_bellandMS with Sy = sum_m s_m conj(phi_m) phi_m^T, SVD by the real SD_svalsvec: selected "
+    "lines == lines of the band where the reference mode is among the cm largest weights (lines where its weight ties with "
+    "another within 1e-6 of the line's largest are skipped), values == s_ref (EFDD) / |c|^2 s_ref (FSDD, real shapes) within "
+    "1e-10 of the line's largest weight, bell(c Sy) == c bell(Sy), bell unchanged under an orthogonal change of channel basis"
 )
 EXTRA_TRUSTED = [
     "np.linalg.svd, np.fft.ifft (linear), np.log, np.sqrt, scipy curve_fit (closed form Σkδ/Σk² compared on every case)",
     "the accuracy tolerances 2.5 % / 15 % / MAC 0.999 are validated by search on the real code, not proved",
+    "C07Bell: the SVD enters as recorded (stored vector = non-zero multiple of a mode's shape, stored value = square root of its weight); "
+    "that LAPACK returns this for a structured spectrum away from ties is validated by the structured-spectrum oracle",
 ]
 ASSUMPTIONS = [
     "exact ties between correlation samples and exact zeros in the normalised correlation are outside the compared domain",
     "oracle domain as in the property: fn/fs in [0.04,0.25], xi in [2,5] %, >=4 lines per half-power bandwidth, >=30 periods in the half record, DF2 in [4,8] bandwidths, DF1 = max(2 lines, one bandwidth)",
+    "structured-spectrum oracle: FSDD values are asserted for real mode shapes only (the domain of C07); for complex shapes the code's "
+    "phi^H Sy phi pairs without conjugation (C07_bell_structured_coded, C07_fsdd_complex_shape_witness) - deviations are counted, not reported",
 ]
 
 
@@ -60,6 +88,12 @@ def _sdof_sy(g, nch, nf, fs, fnr, xi, floor=1e-6, second=None):
     wn = 2 * np.pi * fnr * fs
     S = 1 / ((wn**2 - w**2) ** 2 + (2 * xi * wn * w) ** 2)
     phi = g.standard_normal(nch)
+    if g.random() < 0.2:
+        # a node of the mode at one sensor (exactly zero component), all other sensors moving in phase
+        phi = np.abs(phi) + 0.1
+        phi[int(g.integers(0, nch))] = 0.0
+        if nch == 2 or g.random() < 0.5:
+            phi = -phi
     Sy = np.einsum("i,j,f->ijf", phi, phi, S).astype(complex)
     if second is not None:  # a second mode close by: non-trivial MAC mask
         f2, x2 = second
@@ -71,7 +105,28 @@ def _sdof_sy(g, nch, nf, fs, fnr, xi, floor=1e-6, second=None):
     return freq, Sy, phi
 
 
-def _bell_case(ctx):
+# ----------------------------------------------------------------------------- structured spectra (Props/C07Bell)
+def _struct_spectrum(g, rng, nch, M, nf, cplx):
+    """orthonormal shapes (columns) and non-negative line weights s[m, l] (random or bell-like, with exact zeros)"""
+    A = g.standard_normal((nch, nch)) + (1j * g.standard_normal((nch, nch)) if cplx else 0.0)
+    shapes = np.linalg.qr(A)[0][:, :M]
+    amp = 10.0 ** rng.uniform(-10, 10)
+    if rng.random() < 0.5:
+        s = g.uniform(0, 1, (M, nf)) ** rng.choice([1, 2, 4])
+    else:
+        k = np.arange(nf)
+        s = np.array([rng.uniform(0.2, 1) / (1 + ((k - rng.uniform(0, nf)) / rng.uniform(1, nf / 3)) ** 2) ** 2 for _ in range(M)])
+    s = amp * s
+    s[g.random((M, nf)) < 0.08] = 0.0
+    return shapes, s
+
+
+def _struct_sy(shapes, s):
+    """Sy(l) = sum_m s_m(l) conj(phi_m) phi_m^T  (the conj(X)*Y convention of SD_est: the stored singular vector is phi_m)"""
+    return np.einsum("mf,im,jm->ijf", s, shapes.conj(), shapes)
+
+
+def _bell_case(ctx, struct=False):
     fdd = _fdd()
     rng = ctx.rng
     g = ctx.nprng()
@@ -86,9 +141,16 @@ def _bell_case(ctx):
     MAClim = rng.choice([0.85, rng.uniform(0.3, 0.99)])
     sel = fnr * fs * rng.uniform(0.95, 1.05)
     DF = rng.uniform(0.03, 0.2) * fs
+    if struct:  # exactly rank-structured spectrum: orthonormal complex shapes, non-negative weights
+        nch = rng.randint(2, 5)
+        shapes, sw = _struct_spectrum(g, rng, nch, rng.randint(2, nch), nf, rng.random() < 0.7)
+        Sy = _struct_sy(shapes, sw)
+        DF = rng.uniform(0.05, 0.5) * fs
     k0 = int(np.argmin(np.abs(freq - sel)))
     u = np.linalg.svd(Sy[:, :, k0])[0][:, 0].conj()
     phi_FDD = u / u[np.argmax(np.abs(u))]
+    if struct:
+        phi_FDD = shapes[:, rng.randrange(shapes.shape[1])] * complex(rng.uniform(0.3, 2), rng.uniform(-1, 1))
     real_svd = np.linalg.svd
     rec = []
 
@@ -130,12 +192,12 @@ def _bell_case(ctx):
         ok = ok and not mb.any() and not mask_impl.any()
     ctx.corr(
         "fdd.SDOF_bellandMS", bool(ok),
-        {"method": method, "nch": nch, "nf": nf, "cm": cm, "MAClim": MAClim, "sel": sel, "DF": DF, "dt": dt},
+        {"method": method, "nch": nch, "nf": nf, "cm": cm, "MAClim": MAClim, "sel": sel, "DF": DF, "dt": dt, "structured": struct},
         {"lo": out["lo"], "hi": out["hi"], "mask": mask_model.astype(int).tolist()},
         {"support": np.nonzero(bell)[0].tolist(), "mask": mask_impl.astype(int).tolist()},
-        (method, nch, cm, int(mask_model.sum()) > 0, int(mask_model.sum()) < (out["hi"] - out["lo"]) * cm),
+        (method, nch, cm, int(mask_model.sum()) > 0, int(mask_model.sum()) < (out["hi"] - out["lo"]) * cm, struct),
     )
-    ctx.count(f"bell_{method}")
+    ctx.count(f"bell_{method}" + ("_structured" if struct else ""))
     ctx.count("bell_mask_lines", int(mask_model.sum()))
     ctx.count("bell_band_lines", max(0, out["hi"] - out["lo"]) * cm)
 
@@ -184,6 +246,7 @@ def _post_case(ctx, k):
 
     def ifft_spy(a, *args, **kw):
         out = real_ifft(a, *args, **kw)
+        rec["ifft_call"] = (np.array(a), args, dict(kw), np.array(out))
         if kind != "ifft":
             out = _synthetic_corr(ctx, len(out), kind)
         rec["corr"] = np.array(out.real)
@@ -217,6 +280,21 @@ def _post_case(ctx, k):
     if np.any(corr == 0) or not np.all(np.isfinite(corr)) or corr[np.argmax(corr)] == 0:
         ctx.skipped += 1
         return
+    # (0) the inverse transform as called by the code vs Efdd.ifftRe (zero-padding to 5 nf, norm="ortho", real part)
+    if k % 3 == 0 or ctx.thorough:
+        a_in, args_in, kw_in, out_in = rec["ifft_call"]
+        nI = 5 * nf
+        ts = sorted({0, 1, 2, nI // 2 - 1, nI // 2, nI - 1} | {rng.randrange(nI) for _ in range(6)})
+        tw = np.exp(2j * np.pi * np.arange(nI) / nI)
+        mv = ctx.model("efdd_ifft", nf=nf, bell=[Cx(z) for z in a_in], tw=[Cx(z) for z in tw], rs=R(1 / np.sqrt(nI)), ts=ts)
+        vals = np.array([fl(v) for v in mv["vals"]])
+        ok_i = (
+            args_in == () and kw_in == {"n": nI, "axis": 0, "norm": "ortho"} and a_in.shape == (nf,) and out_in.shape == (nI,)
+            and np.abs(vals - out_in.real[ts]).max() <= 1e-12 * max(np.abs(out_in.real).max(), 1e-300)
+        )
+        ctx.corr("EFDD_mpe[ifft]", bool(ok_i), {"nf": nf, "kw": {k_: str(v_) for k_, v_ in kw_in.items()}, "ts": ts},
+                 vals.tolist(), out_in.real[ts].tolist(), (nf, int(np.count_nonzero(a_in)) > 0))
+        ctx.count("ifft_bell_nonzero_lines", int(np.count_nonzero(a_in)))
     # (a) normalisation
     nc = ctx.model("norm_corr", corr=Rvec(corr))
     x_code = corr[: n // 2] / corr[np.argmax(corr)]
@@ -281,6 +359,8 @@ def _distinct(x):
 def correspondence(ctx):
     for _ in range(ctx.n(30, 300)):
         _bell_case(ctx)
+    for _ in range(ctx.n(16, 160)):
+        _bell_case(ctx, struct=True)
     for k in range(ctx.n(60, 600)):
         _post_case(ctx, k)
 
@@ -323,6 +403,9 @@ def _run_fn(fdd, freq, Sy, fs, fn, xi, nxseg, method, kbw):
     return float(np.ravel(Fn)[0]), float(np.ravel(Xi)[0]), np.asarray(Phi)[:, 0]
 
 
+_RUN_CLASS = {"n": 0, "reused": 0}
+
+
 def _run_class(fdd, freq, Sy, fs, fn, xi, nxseg, method, kbw):
     """through the setup and the algorithm class (sampling frequency handed over by SingleSetup.add_algorithms);
     the exact spectral result is installed as if run() had produced it"""
@@ -330,7 +413,17 @@ def _run_class(fdd, freq, Sy, fs, fn, xi, nxseg, method, kbw):
     from pyoma2.setup import SingleSetup
 
     cls = {"EFDD": EFDD, "FSDD": FSDD}[method]
-    alg = cls(name="a", nxseg=nxseg, method_SD="per")
+    # every other call re-uses the algorithm object of an earlier case (attached to a NEW setup with another sampling
+    # frequency and channel count): nothing of the earlier attachment may survive
+    _RUN_CLASS["n"] += 1
+    alg = _RUN_CLASS.get((method, nxseg)) if _RUN_CLASS["n"] % 2 == 0 else None
+    if alg is None:
+        alg = cls(name="a", nxseg=nxseg, method_SD="per")
+        _RUN_CLASS[(method, nxseg)] = alg
+        _RUN_CLASS["last"] = "fresh object"
+    else:
+        _RUN_CLASS["reused"] += 1
+        _RUN_CLASS["last"] = f"object re-used; previously attached to a setup with fs={alg.fs}, then mpe"
     ss = SingleSetup(np.zeros((8, Sy.shape[0])), fs)
     ss.add_algorithms(alg)
     Sval, Svec = fdd.SD_svalsvec(Sy)
@@ -356,6 +449,8 @@ def _judge(ctx, path, fs, nxseg, xi, fnr, nch, kbw, phi, runner, do_scale, level
             res[method] = e
         ctx.oracle_cases += 1
         ctx.nontrivial.add(("oracle", path, method, nxseg, nch))
+        if runner is _run_class:
+            inp[f"algorithm_object_{method}"] = _RUN_CLASS.get("last")
     bad = {"exc": [], "fn": [], "xi": [], "mac": []}
     obs = {}
     for method, r in res.items():
@@ -398,8 +493,163 @@ def _judge(ctx, path, fs, nxseg, xi, fnr, nch, kbw, phi, runner, do_scale, level
                               observed={"fn": [r[0], f2], "xi": [r[1], x2]})
 
 
+# ----------------------------------------------------------------------------- oracle: bell on structured spectra (C07Bell)
+_TIE = 1e-6  # lines where the reference weight is within this fraction of the line's largest weight of another weight are skipped
+_VTOL = 1e-10  # value tolerance, relative to the line's largest weight (LAPACK: absolute error eps*sigma_max per singular value)
+
+
+def _struct_band(nf, dt, sel, DF):
+    """nearest grid line (f_k = k/(2 nf dt)) to sel-DF and sel+DF; None when a limit is within 1e-6 line of a midpoint"""
+    df = 1 / dt / (2 * nf)
+    out = []
+    for x in (sel - DF, sel + DF):
+        q = x / df
+        if -0.5 < q < nf - 0.5 and abs((q % 1) - 0.5) < 1e-6:
+            return None
+        out.append(int(min(max(math.floor(q + 0.5), 0), nf - 1)))
+    return tuple(out)
+
+
+def _struct_expect(sw, r, cm, nch, band):
+    """(selected, tie) per line: the reference mode is among the cm largest of the nch weights (absent directions weigh 0)"""
+    M, nf = sw.shape
+    full = np.vstack([sw, np.zeros((nch - M, nf))])
+    others = np.delete(full, r, axis=0)
+    top = full.max(axis=0)
+    tie = np.any(np.abs(others - sw[r]) <= _TIE * top, axis=0)
+    sel = (others > sw[r]).sum(axis=0) < cm
+    inb = np.zeros(nf, bool)
+    inb[band[0] : band[1]] = True
+    return sel & inb, tie & inb, top
+
+
+def _struct_inp(shapes, sw, r, cm, dt, sel, DF, MAClim, c, extra=None):
+    d = {"stream": "structured", "shapes_re": shapes.real.tolist(), "shapes_im": shapes.imag.tolist(), "s": sw.tolist(), "r": r, "cm": cm,
+         "dt": dt, "sel": sel, "DF": DF, "MAClim": MAClim, "c": [c.real, c.imag],
+         "spectrum": "Sy[:,:,l] = sum_m s[m][l] conj(phi_m) phi_m^T, phi_m = columns of shapes (orthonormal); phi_FDD = c * phi_r"}
+    d.update(extra or {})
+    return d
+
+
+def _struct_eval(fdd, inp):
+    """runs the real SDOF_bellandMS on one structured case; returns a list of (sig, what, observed, expected) and statistics"""
+    shapes = np.array(inp["shapes_re"]) + 1j * np.array(inp["shapes_im"])
+    cplx = bool(np.any(shapes.imag != 0))
+    sw = np.array(inp["s"], float)
+    r, cm, dt, sel, DF, MAClim = inp["r"], inp["cm"], inp["dt"], inp["sel"], inp["DF"], inp["MAClim"]
+    c = complex(*inp["c"])
+    nch, M = shapes.shape
+    nf = sw.shape[1]
+    fails, stats = [], {}
+    band = _struct_band(nf, dt, sel, DF)
+    if band is None or band[1] <= band[0]:  # empty band: SDOF_bellandMS raises (shape mismatch of empty arrays) - outside the claim
+        return None, stats
+    exp_sel, tie, top = _struct_expect(sw, r, cm, nch, band)
+    chk = ~tie
+    Sy = _struct_sy(shapes, sw)
+    phi = c * shapes[:, r]
+    c2 = abs(c) ** 2
+    stats["lines_selected"] = int((exp_sel & chk).sum())
+    stats["lines_rejected_in_band"] = int((~exp_sel & chk).sum()) - (nf - max(0, band[1] - band[0]))
+    stats["lines_tie_skipped"] = int(tie.sum())
+    base = {}
+    for method in ("EFDD", "FSDD"):
+        bell, ms = fdd.SDOF_bellandMS(Sy, dt, sel, phi, method, cm, MAClim, DF)
+        base[method] = bell
+        # selected lines: rows of SDOFms that are non-zero (a selected line whose weight is exactly 0 carries a zero bell value);
+        # a line that is not selected must carry an exactly zero bell value
+        got = np.any(ms != 0, axis=1)
+        if bell.shape != (nf,) or np.any(got[chk] != exp_sel[chk]) or np.any(bell[chk & ~exp_sel] != 0):
+            bad = np.nonzero(chk & ((got != exp_sel) | (~exp_sel & (bell != 0))))[0].tolist()
+            fails.append((f"bell-structured-support-{method}", f"selected lines differ from the lines where the reference mode is among the {cm} largest weights (lines {bad[:8]})",
+                          {"selected": np.nonzero(got & chk)[0].tolist()}, {"selected": np.nonzero(exp_sel & chk)[0].tolist(), "band": list(band)}))
+            continue
+        on = exp_sel & chk
+        want = sw[r] * (1.0 if method == "EFDD" else c2)
+        scale_ = top * (1.0 if method == "EFDD" else c2)
+        dev = np.abs(bell - want)[on] / scale_[on] if on.any() else np.zeros(0)
+        if method == "EFDD" or not cplx:
+            stats[f"worst_value_dev_{method}"] = float(dev.max()) if dev.size else 0.0
+            if dev.size and not dev.max() <= _VTOL:
+                l = int(np.nonzero(on)[0][np.argmax(dev)])
+                fails.append((f"bell-structured-value-{method}", f"bell value on a selected line is not the reference mode's weight (line {l})",
+                              {"bell": [bell[l].real, bell[l].imag]}, {"value": float(want[l]), "tol_rel_to_largest_weight": _VTOL}))
+        else:  # complex shapes, FSDD: the code pairs without conjugation (outside the domain of C07) - counted only
+            stats["fsdd_complex_lines"] = int(on.sum())
+            stats["fsdd_complex_lines_off_by_1pct"] = int((dev > 0.01).sum())
+    # (2a) positive factor: bell(f*Sy) = f*bell(Sy), same support
+    f = inp.get("factor")
+    if f is not None:
+        for method in ("EFDD", "FSDD"):
+            b2, _ = fdd.SDOF_bellandMS(f * Sy, dt, sel, phi, method, cm, MAClim, DF)
+            sc = top * f * (1.0 if method == "EFDD" else c2)
+            ok = np.all(b2[chk & ~exp_sel] == 0) and np.all(np.abs(b2 - f * base[method])[chk] <= _VTOL * sc[chk])
+            if not ok:
+                fails.append((f"bell-structured-scale-{method}", f"bell(f*Sy) is not f*bell(Sy) for f = {f:g}", None, None))
+    # (2b) change of channel basis y -> Q y: Sy -> conj(Q) Sy Q^T, phi -> Q phi
+    if "Q_re" in inp:
+        Q = np.array(inp["Q_re"]) + 1j * np.array(inp["Q_im"])
+        Qc = bool(np.any(Q.imag != 0))
+        SyQ = np.einsum("ik,klf,jl->ijf", Q.conj(), Sy, Q)
+        for method in ("EFDD", "FSDD"):
+            if method == "FSDD" and Qc:
+                continue  # FSDD's unconjugated pairing is invariant for real Q only (C07_bell_unitary, remark)
+            b2, _ = fdd.SDOF_bellandMS(SyQ, dt, sel, Q @ phi, method, cm, MAClim, DF)
+            sc = top * (1.0 if method == "EFDD" else c2)
+            ok = np.all(b2[chk & ~exp_sel] == 0) and np.all(np.abs(b2 - base[method])[chk] <= _VTOL * sc[chk])
+            if not ok:
+                fails.append((f"bell-structured-basis-{method}", "bell changes under a unitary change of the channel basis", None, None))
+    return fails, stats
+
+
+def _struct_oracle(ctx, n):
+    fdd = _fdd()
+    rng = ctx.rng
+    for it in range(n):
+        g = ctx.nprng()
+        nch = rng.randint(2, 7)
+        M = rng.randint(1, nch)
+        nf = rng.randint(8, 72)
+        cplx = rng.random() < 0.6
+        shapes, sw = _struct_spectrum(g, rng, nch, M, nf, cplx)
+        r = rng.randrange(M)
+        cm = rng.choice([1, 1, 1, 2, 2, 3]) if nch > 2 else rng.choice([1, 1, 2])
+        cm = min(cm, nch)
+        dt = 10.0 ** rng.uniform(-4, 1)
+        fny = 1 / dt / 2
+        sel = rng.uniform(0.05, 0.95) * fny
+        DF = rng.choice([rng.uniform(0.02, 0.4), rng.uniform(0.4, 1.2)]) * fny
+        MAClim = rng.choice([0.85, rng.uniform(0.05, 0.95)])
+        c = complex(rng.uniform(0.3, 3) * rng.choice([1, -1]), rng.uniform(-2, 2))
+        extra = {}
+        if it % 2 == 0:
+            extra["factor"] = 10.0 ** rng.uniform(-8, 8)
+        if it % 3 == 0:
+            realQ = rng.random() < 0.6
+            B = g.standard_normal((nch, nch)) + (0.0 if realQ else 1j * g.standard_normal((nch, nch)))
+            Q = np.linalg.qr(B)[0][g.permutation(nch)]
+            extra["Q_re"], extra["Q_im"] = Q.real.tolist(), (Q.imag if not realQ else np.zeros((nch, nch))).tolist()
+        inp = _struct_inp(shapes, sw, r, cm, dt, sel, DF, MAClim, c, extra)
+        fails, stats = _struct_eval(fdd, inp)
+        if fails is None:
+            ctx.skipped += 1
+            continue
+        ctx.oracle_cases += 1
+        ctx.nontrivial.add(("oracle-structured", nch, M, cm, cplx, stats["lines_selected"] > 0, stats["lines_rejected_in_band"] > 0))
+        for sig, what, obs, exp in fails:
+            ctx.violation(sig, f"structured spectrum ({nch} channels, {M} modes, {nf} lines, cm={cm}, {'complex' if cplx else 'real'} shapes): {what}",
+                          inp, observed=obs, expected=exp)
+        ctx.count("struct_cases_complex_shapes" if cplx else "struct_cases_real_shapes")
+        ctx.count(f"struct_cm_{cm}")
+        for k_ in ("lines_selected", "lines_rejected_in_band", "lines_tie_skipped", "fsdd_complex_lines", "fsdd_complex_lines_off_by_1pct"):
+            ctx.count("struct_" + k_, stats.get(k_, 0))
+        for k_ in ("worst_value_dev_EFDD", "worst_value_dev_FSDD"):
+            ctx.dist["struct_" + k_ + "_1e-16"] = max(ctx.dist.get("struct_" + k_ + "_1e-16", 0), int(stats.get(k_, 0.0) * 1e16))
+
+
 def oracle(ctx, scale):
     rng = ctx.rng
+    _struct_oracle(ctx, ctx.n(150, 3000) * scale)
     for it in range(ctx.n(48, 500) * scale):
         fs, nxseg, xi, fnr, nch, kbw = _domain_case(rng)
         if not ctx.thorough and nxseg == 8192 and rng.random() < 0.5:
@@ -408,6 +658,10 @@ def oracle(ctx, scale):
                 continue
         g = ctx.nprng()
         phi = g.standard_normal(nch)
+        if rng.random() < 0.2:  # a node of the mode at one sensor (exactly zero component), the others in phase
+            phi = np.abs(phi) + 0.1
+            phi[rng.randrange(nch)] = 0.0
+            ctx.count("oracle_shape_with_node")
         phi = phi / phi[np.argmax(np.abs(phi))]
         via_class = it % 2 == 1
         # absolute level of the spectral matrix: natural units, or peak density anywhere in 1e-22 .. 1e12
@@ -418,6 +672,7 @@ def oracle(ctx, scale):
         ctx.count("oracle_fs_kHz" if fs >= 1000 else "oracle_fs_below_kHz")
         ctx.count(f"oracle_nxseg_{nxseg}")
         ctx.count("oracle_via_class" if via_class else "oracle_via_function")
+    ctx.dist["oracle_class_object_reused"] = _RUN_CLASS["reused"]
 
 
 def replay(rec):
@@ -425,6 +680,14 @@ def replay(rec):
     v = rec["violation"]
     inp = v["input"]
     print("replaying", v["sig"], "-", v["what"])
+    if inp.get("stream") == "structured":
+        fails, stats = _struct_eval(fdd, inp)
+        print("statistics:", stats)
+        for sig, what, obs, exp in fails or []:
+            print("FAILS", sig, "-", what, "| observed", obs, "| expected", exp)
+        if not fails:
+            print("all structured-spectrum checks hold on this input")
+        return 1 if fails else 0
     phi = np.array(inp["phi"])
     fs, nxseg, xi = inp["fs"], inp["nxseg"], inp["xi"]
     freq, Sy, fn = _analytic(fs, nxseg, xi, inp["fn_over_fs"], phi, inp.get("level"))
